@@ -13,7 +13,15 @@ exec 9>/var/tmp/vx-seedrun/lock; flock 9
 HEAD=$(git -C /repo rev-parse HEAD)
 if [ ! -d "$WT" ]; then git -C /repo worktree add --detach "$WT" "$HEAD" >/dev/null 2>&1 || exit 2; fi
 git -C "$WT" reset -q --hard && git -C "$WT" checkout -q --detach "$HEAD" || exit 2
-git -C "$WT" apply "$D/patch.diff" 2>/dev/null || git -C "$WT" apply -3 "$D/patch.diff" 2>/dev/null || { echo "SEEDTEST $S: patch does not apply to current HEAD"; echo "$(date -u +%FT%TZ) $S patch-does-not-apply" >> /verif/seeded/results.log; exit 2; }
+applied=0
+for pf in "$D/patch.rebased.diff" "$D/patch.diff"; do
+  [ -f "$pf" ] || continue
+  git -C "$WT" reset -q --hard
+  if git -C "$WT" apply "$pf" 2>/dev/null; then applied=1; break; fi
+  # same change, shifted context (the tree has moved on through fix commits): let patch(1) place it with fuzz
+  if (cd "$WT" && patch -p1 -F3 --no-backup-if-mismatch -s < "$pf" >/dev/null 2>&1); then applied=1; break; fi
+done
+[ $applied = 1 ] || { echo "SEEDTEST $S: patch does not apply to current HEAD"; echo "$(date -u +%FT%TZ) $S patch-does-not-apply" >> /verif/seeded/results.log; exit 2; }
 res=""
 for c in $CHECKS; do
   out=$(cd /verif && REPO="$WT" VERIF_REPO="$WT" BUILD="$SB" VERIF_NO_EVIDENCE=1 timeout 3000 bin/vx check $c --tier ${TIER:-quick} 2>&1); rc=$?
